@@ -235,6 +235,15 @@ def run_case(case):
         objs.append(('Buck4_SplinePotential', Buck4_SplinePotential(so, eo, d, a, rm), so, eo))
         so2, eo2 = api_obj(s_it), api_obj(e_it)
         objs.append(('Custom_SplinePotential(Buck4_Spline)', Custom_SplinePotential(Buck4_Spline(Spline_Point(so2, d), Spline_Point(eo2, a), rm)), so2, eo2))
+    if has_api:
+        # the same two Spline_Point objects serve several splines, one after the other (exp, buck4-type, exp again)
+        so3, eo3 = api_obj(s_it), api_obj(e_it)
+        p1, p2 = Spline_Point(so3, d), Spline_Point(eo3, a)
+        rm3 = rm if rm is not None else 0.5 * (float(d) + float(a))
+        first = Custom_SplinePotential(Exp_Spline(p1, p2))
+        second = Custom_SplinePotential(Buck4_Spline(p1, p2, rm3))
+        third = Custom_SplinePotential(Exp_Spline(p1, p2))
+        objs.append(('spline points re-used: 3rd spline, %s' % kind, third if kind == 'exp_spline' else Custom_SplinePotential(Buck4_Spline(p1, p2, rm)), so3, eo3))
     for mk1, mk2 in (('>', '>'), ('>=', '>=')):
         sp = {"mod": "spline", "start": s_it, "detach": [mk1, d], "kind": kind, "rmin": rm, "attach": [mk2, a], "end": e_it, "first": None}
         ini = M.pair_ini('LAMMPS', [('A', 'B', D(sp))], 5.0, 6)
